@@ -113,6 +113,24 @@ def run_case(case, rec):
             rec.check(res <= 1e-5 * Cout, 'mix', f'enthalpy/{tag}', f'mix_from: H out {Hout!r} != sum H in {Hin!r} + Q {Q!r} (residual {res:.4g} kJ/hr = {res / Cout:.3g} K * C; T in {Ts}, T out {recv.T})', residual=res / Cout)
             rec.check(recv.P == Pmin, 'mix:pressure', tag, f'mix_from: P out {recv.P!r} != lowest pressure among the non-empty inlets {Pmin!r}')
             if len(nonempty) == 1: rec.hit('mix:single-inlet')
+            # the inlets (other than the receiver) still report their own enthalpy and temperature, also when read again after the mix ...
+            for s_in, d in zip(ins, case['inlets']):
+                if s_in is recv or s_in.isempty(): continue
+                tw = mk(th, d)
+                rec.check(s_in.T == d['T'] and abs(s_in.H - tw.H) <= 1e-9 * abs(tw.H) + 1e-9, 'mix', f'inlet-changed/{tag}',
+                          f'after mix_from an inlet reports H={s_in.H!r}, T={s_in.T!r}; a fresh stream in the same state has H={tw.H!r}, T={d["T"]}')
+            # ... and the unit can be run again on the same objects (outlets are re-used between runs)
+            if not case['recv_in']:
+                recv.mix_from(others, energy_balance=True, **kw)
+                H2 = recv.H
+                Hin2 = sum(mk(th, d).H for d in case['inlets'] if any(d['flows']))
+                rec.check(abs(H2 - (Hin2 + Q)) <= 1e-5 * recv.C, 'mix', f'second-run/{tag}', f'second mix_from on the same objects: H out {H2!r} != sum H in {Hin2!r} + Q {Q!r} (first run gave {Hout!r})',
+                          residual=abs(H2 - (Hin2 + Q)) / recv.C)
+                # assigning an inlet its own enthalpy leaves its temperature alone
+                for s_in, d in zip(ins, case['inlets']):
+                    if s_in.isempty(): continue
+                    s_in.H = s_in.H
+                    rec.check(abs(s_in.T - d['T']) <= 1e-6, 'set-current', 'inlet-after-mix', f'after mixing, assigning an inlet its own H moved its T from {d["T"]} to {s_in.T!r}')
             nchem = int((recv.mol.to_array() > 0).sum())
             if nchem >= 2 and (max(Ts) - min(Ts) >= 5 or Q): rec.mark_nontrivial(case_hash(case))
         elif t == 'sep':
